@@ -512,7 +512,8 @@ impl<'a> Gen<'a> {
                     held.push((h, HK::Suspend));
                 }
                 7 => {
-                    let op = self.op(OpKind::DropObj { o });
+                    let k = if self.rng.permille(250) { OpKind::DropObjPanicking { o } } else { OpKind::DropObj { o } };
+                    let op = self.op(k);
                     out.push(op);
                 }
                 8 => {
